@@ -3,7 +3,7 @@
 and Spec/InitSpec.v (C11 6.7.9 as a cursor over subobject paths) to the real chibicc.
 
 run(src_dir, seed, n, verif_dir) generates n (type, initializer) pairs in the abstract syntax of
-Spec/InitSyntax.v (41 boundary cases first, then seeded random ones produced by a python cursor so that most are
+Spec/InitSyntax.v (46 boundary cases first, then seeded random ones produced by a python cursor so that most are
 valid), prints each as a C program that defines the object once with static storage at file scope and once with
 automatic storage and prints every scalar leaf, compiles and runs it with the REAL chibicc, and evaluates the same
 pairs with the Coq model, the Coq spec and the Coq predicates `valid` / `clean` in ONE coqc call
@@ -126,6 +126,17 @@ class Gen:
                 elif is_char_array(e) and rng.random() < 0.5: v = ('str', [rng.randint(97, 122), 0])
                 else: v = self.blist(e, depth - 1, mode)
                 items.append(([('r', a, b)], v)); c = nxt_path(U, [b]); continue
+            if rng.random() < mode.get('psimple', 0) * 0.6:
+                # a designator path ENDING in a range, with an initializer for ONE element (inside `valid`)
+                pp = self.rand_path(U, 2); Wp = sub(U, pp)
+                if pp and Wp is not None and Wp[0] == 'a':
+                    hi = Wp[1] if Wp[1] is not None else 5
+                    a = rng.randrange(hi); b = rng.randint(a, min(hi - 1, a + 2)); e = Wp[2]
+                    if e[0] == 's': v = ('e', self.eid())
+                    elif is_char_array(e) and rng.random() < 0.5: v = ('str', [rng.randint(97, 122), 0])
+                    else: v = self.blist(e, depth - 1, mode)
+                    ds = [('i', i) if Wx[0] == 'a' else ('f', i) for i, Wx in zip(pp, [sub(U, pp[:j]) for j in range(len(pp))])]
+                    items.append((ds + [('r', a, b)], v)); c = nxt_path(U, pp + [b]); continue
             if use_d:
                 p = self.rand_path(U, 3)
                 if not p: continue
@@ -158,7 +169,7 @@ BOUNDARY = [
     (('S', [('S', [('s', 0), ('s', 0)]), ('s', 0)]), ('l', [([('f', 0), ('f', 1)], ('e', 1)), ([], ('e', 2))], False)),
     (('S', [('S', [('s', 0), ('s', 0)]), ('s', 0)]), ('l', [([('f', 1)], ('e', 1)), ([('f', 0)], ('e', 2)), ([], ('e', 3)), ([], ('e', 4))], False)),
     (('S', [('S', [('s', 0), ('s', 0)]), ('s', 0)]), ('l', [([], ('e', 1)), ([], ('e', 2)), ([], ('e', 3)), ([('f', 0)], ('l', [([], ('e', 5))], False))], False)),   # braced override (finding)
-    (('a', 2, ('a', 6, ('s', 0))), ('l', [([('i', 1), ('r', 2, 4)], ('e', 7)), ([], ('e', 8))], False)),     # nested range (finding)
+    (('a', 2, ('a', 6, ('s', 0))), ('l', [([('i', 1), ('r', 2, 4)], ('e', 7)), ([], ('e', 8))], False)),     # nested range (former finding 2, repaired; inside valid)
     (('a', 8, ('s', 0)), ('l', [([('r', 1, 3)], ('e', 7)), ([], ('e', 8)), ([('r', 5, 6)], ('e', 1)), ([], ('e', 2))], False)),
     (('a', None, ('s', 0)), ('l', [([('i', 4)], ('e', 1)), ([('i', 1)], ('e', 2)), ([], ('e', 3))], False)),
     (('a', None, ('S', [('s', 0), ('s', 0)])), ('l', [([('i', 2), ('f', 0)], ('e', 1)), ([], ('e', 2)), ([], ('e', 3))], False)),
@@ -173,6 +184,11 @@ BOUNDARY = [
     (('S', [('s', 0), ('a', None, ('s', 0))]), ('l', [([], ('e', 1)), ([], ('e', 2)), ([], ('e', 3))], False)),
     (('S', [('s', 0), ('a', None, ('s', 1))]), ('l', [([], ('e', 1)), ([], ('str', [97, 98, 0]))], False)),
     (('s', 0), ('l', [([], ('e', 1))], False)),
+    (('S', [('s', 0), ('a', 4, ('S', [('s', 0), ('s', 2)])), ('s', 0)]), ('l', [([('f', 1), ('r', 1, 2)], ('l', [([], ('e', 1)), ([], ('e', 2))], False)), ([], ('e', 3)), ([], ('e', 4)), ([], ('e', 5))], False)),   # .m[1 ... 2] = {..}, then on after element 2
+    (('a', None, ('a', 3, ('s', 0))), ('l', [([('i', 2), ('r', 0, 1)], ('e', 1)), ([], ('e', 2)), ([], ('e', 3))], False)),   # [2][0 ... 1] = 1, 2, 3 in an array of unknown bound
+    (('S', [('a', 8, ('s', 1))]), ('l', [([], ('str', [100, 101, 102, 97, 117, 108, 116, 0])), ([('f', 0)], ('str', [97, 98, 0]))], False)),   # a string overriding a longer string: the tail is zero again
+    (('S', [('a', 4, ('s', 1)), ('s', 0)]), ('l', [([('f', 0), ('i', 2)], ('e', 5)), ([('f', 0)], ('l', [([], ('str', [97, 0]))], False)), ([], ('e', 6))], False)),   # braced string overriding an element
+    (('S', [('a', 2, ('a', 2, ('a', 3, ('s', 1)))), ('s', 0)]), ('l', [([], ('str', [97, 98, 0])), ([], ('str', [99, 0])), ([], ('str', [100, 0])), ([], ('str', [101, 0])), ([], ('e', 7))], False)),   # strings by elision through two array levels
     (('s', 0), ('l', [([], ('l', [([], ('e', 1))], False))], False)),                                             # int x = {{1}}: chibicc accepts any depth
     (('S', [('s', 0), ('s', 2)]), ('l', [([], ('l', [([], ('l', [([], ('e', 1))], False))], False)), ([], ('e', 2))], False)),
     (('a', 2, ('s', 0)), ('l', [([], ('e', 1)), ([], ('e', 2)), ([], ('l', [([], ('e', 3))], False))], False)),     # excess { 3 } is skipped
@@ -185,7 +201,7 @@ BOUNDARY = [
     (('a', 3, ('s', 0)), ('l', [([('i', 3)], ('e', 1))], False)),                                                 # index = bound: rejected
     (('a', 4, ('a', 2, ('s', 0))), ('l', [([('r', 1, 2)], ('l', [([], ('e', 1)), ([], ('e', 2))], False)), ([], ('e', 3))], False)),   # valid range form
     (('a', 3, ('a', 3, ('s', 0))), ('l', [([('r', 0, 1), ('i', 1)], ('e', 7)), ([], ('e', 8)), ([], ('e', 9))], False)),     # range then index: replicated continuation
-    (('S', [('a', 2, ('a', 3, ('s', 1)))]), ('l', [([], ('str', [97, 98, 0]))], False)),                       # string elided through an array (finding 3)
+    (('S', [('a', 2, ('a', 3, ('s', 1)))]), ('l', [([], ('str', [97, 98, 0]))], False)),                       # string elided through an array (former finding 3, repaired)
     (('a', None, ('S', [('a', 4, ('s', 1)), ('s', 0)])), ('l', [([], ('str', [97, 98, 0])), ([], ('e', 1)), ([], ('l', [([], ('str', [99, 100, 101, 102, 0])), ([], ('e', 2))], False)), ([('i', 3), ('f', 0)], ('l', [([], ('str', [103, 0]))], False))], False)),
     (('a', None, ('s', 1)), ('l', [([], ('str', [104, 105, 0]))], True)),
     (('U', [('a', 3, ('s', 1)), ('s', 0)]), ('str', [97, 0])),
